@@ -13,7 +13,7 @@ from types import SimpleNamespace
 from .. import cpuwatch, e2e, realcall
 from ..common import Hang, hx, unhx, watchdog
 from ..runner import Check
-from . import c11_collapse, c11_dups, c11_repoint
+from . import c11_collapse, c11_dups, c11_repoint, c11_reusepos
 
 # ---------------------------------------------------------------------------------------------
 # graphs
@@ -1639,7 +1639,7 @@ def run(ck: Check) -> None:
         "paths of the models handed to the sorter are pairwise distinct (C06: the resolver keeps one model per path); the overwrite on equal paths is modelled and exhibited (sort_loses_duplicate_path)",
         "Python's own RecursionError is modelled as striking at the nested call of sort_data_models or in the callee before its first write (sortGoS); observed on the real function with stand-in objects whose attributes are plain values; with real DataModel objects only the result oracle is applied",
         "the generator's pipeline apart from the ordering stage needs some stack of its own: end-to-end runs on a lowered recursion limit that also fail for the referent-first order of the same models are counted as unmodelled, not as failures",
-        "__reuse_model is modelled for object models (Enum and type-alias branches: end-to-end oracle only); equality of renderings is represented by a key computed from the written definition (mark, members, bases)",
+        "Model.Sort.reusePass (update-action list, footer) covers object models only; the Enum and type-alias branches and the positions in the live list are Model.ReusePos (model objects compare by identity: DataModel defines no __eq__); equality of renderings is represented by a key computed from the written definition (mark, members, bases) resp. from render()+imports of the real objects",
         "Model.Collapse: one module (references to root models of other modules and users outside the list only as `ext`), --field-constraints off, root models have one field; a copy that shares a registered nested data type pointing at a root model is outside the model (`unmodelled`, counted)",
         "the end-to-end oracle treats a base list that Python itself rejects (MRO conflict, duplicate base) as outside C11: no order of classes could repair it",
     ]
@@ -1652,13 +1652,15 @@ def run(ck: Check) -> None:
     guarded(ck, campaign_sort_models, 600 if quick else 6000)
     guarded(ck, campaign_e2e, 240 if quick else 2000)
     guarded(ck, campaign_reuse, 200 if quick else 2000)
+    guarded(ck, c11_reusepos.campaign_reusepos, 32 if quick else 600)
     guarded(ck, c11_repoint.campaign_replace_reference, 400 if quick else 4000)
     guarded(ck, c11_repoint.campaign_passes, 150 if quick else 1500)
     guarded(ck, c11_collapse.campaign_collapse, 120 if quick else 1500)
     guarded(ck, campaign_e2e_post, 120 if quick else 900)
-    guarded(ck, campaign_e2e_deep, 10 if quick else 60)
+    guarded(ck, campaign_e2e_deep, 8 if quick else 62)
     guarded(ck, campaign_e2e_modular, 80 if quick else 400)
     ck.search_hooks.append(search_update_action)
+    ck.search_hooks.append(c11_reusepos.search_reusepos)
     ck.search_hooks.append(c11_collapse.search_collapse)
     ck.search_hooks.append(c11_dups.search_dups)
     ck.search_hooks.append(search_e2e)
